@@ -9,7 +9,7 @@ import threading
 from .. import astx, refimpl
 from ..history import ExecFailure, History, Sentinel
 
-N_CASES = {"quick": 6, "thorough": 7500}
+N_CASES = {"quick": 40, "thorough": 7500}
 TIME_BUDGET = {"quick": 60, "thorough": 270}
 META = {
     "rule": "(1) random build/execute histories over 1-3 datasets (typed/untyped, terminals, MetaData incl. empty, QMetaData, override "
